@@ -7,7 +7,7 @@ CONSTANTS
   BinSizes = {2, 3, 4}
   Bpjs = {1, 2, 3, 5}
   Mfss = {0, 1, 3}
-  KindSet = {"good", "dup"}
+  KindSet = {"good", "dup", "unpaired"}
   KwargsSet = {"empty"}
   UseKeySet = {TRUE}
   NFiles = 1
